@@ -174,7 +174,7 @@ class Function:
                     if cmd[0] == "exit":
                         return
                     if cmd[0] == "await":
-                        aws.append(cls.create_task(cmd[1]))
+                        aws.append(cls.create_task(cmd[1], ast_ctx=cmd[2]))
                     elif cmd[0] == "sync":
                         if len(aws) > 0:
                             # (a task that was canceled, eg by itself, mustn't cancel the waiter)
@@ -207,9 +207,9 @@ class Function:
             cls.task_reaper_q = None
 
     @classmethod
-    def waiter_await(cls, coro):
+    def waiter_await(cls, coro, ast_ctx=None):
         """Send a coro to be awaited by the waiter task."""
-        cls.task_waiter_q.put_nowait(["await", coro])
+        cls.task_waiter_q.put_nowait(["await", coro, ast_ctx])
 
     @classmethod
     async def waiter_sync(cls):
